@@ -111,6 +111,16 @@ def hazards():
                            (100000, "3h"), (1000000, "1d"), (5, "1s")):
         hz.append(("rate limit %s per %s" % (number.s if isinstance(number, Raw) else number, period), "either", rl(number, period)))
 
+    # powers of two and their neighbours (truncating casts, sign bits) with periods that take the dividing branch of the limiter
+    for k in (8, 16, 31, 32, 33, 63, 64):
+        for d in (-1, 0, 1):
+            n = 2 ** k + d
+            if n >= 2 ** 64:
+                continue
+            for period in ("2s", "1h"):
+                hz.append(("rate limit %d per %s" % (n, period), "either", rl(Raw(str(n)), period)))
+    hz.append(("rate limit 8589934592 per 10s", "either", rl(Raw("8589934592"), "10s")))
+
     def cert_field(k, v):
         def f(cfg, sc):
             cfg["certificate"][0][k] = v
